@@ -48,6 +48,9 @@ func (r *Run) fault(k CallKey) error {
 }
 
 func (r *Run) record(n *Node, field string, args map[string]interface{}) {
+	if r.NoLog {
+		return
+	}
 	k := CallKey{n.ID, field}
 	r.Log = append(r.Log, k)
 	r.Args = append(r.Args, ArgRecord{k, args})
